@@ -2,6 +2,7 @@ package c12
 
 import (
 	"context"
+	"errors"
 	"fmt"
 	"io"
 	"net"
@@ -58,6 +59,11 @@ type conn struct {
 	added    time.Time
 	closedNS atomic.Int64 // virtual UnixNano of the first close; 0 = still open
 	closedBy atomic.Value // string
+	// closing: the transport connection already reports IsClosed() (and refuses new streams), but
+	// its AcceptStream has not returned yet, so the swarm has not reaped it: it is still listed.
+	// The state lasts until release() (or a local Close) really closes the connection.
+	closing    atomic.Bool
+	releasedNS atomic.Int64 // virtual UnixNano of the real close of a connection that was closing
 }
 
 func (c *conn) stamp(by string) {
@@ -66,14 +72,43 @@ func (c *conn) stamp(by string) {
 	}
 }
 
-func (c *conn) Close() error { c.stamp("local"); return c.Conn.Close() }
+func (c *conn) stampRelease() {
+	if c.closing.Load() {
+		c.releasedNS.CompareAndSwap(0, time.Now().UnixNano())
+	}
+}
+
+func (c *conn) Close() error { c.stamp("local"); c.stampRelease(); return c.Conn.Close() }
 func (c *conn) CloseWithError(code network.ConnErrorCode) error {
 	c.stamp("local")
+	c.stampRelease()
 	return c.Conn.CloseWithError(code)
 }
 
 // remoteClose plays the remote side (or the network) killing the connection.
-func (c *conn) remoteClose() { c.stamp("remote"); c.Conn.RemoteClose() }
+func (c *conn) remoteClose() { c.stamp("remote"); c.stampRelease(); c.Conn.RemoteClose() }
+
+// markClosing puts the connection into the closing state: from now on the transport reports
+// IsClosed() and opens no stream, but nothing tells the swarm (AcceptStream stays blocked).
+// For the reference model the connection is closed from this instant on.
+func (c *conn) markClosing() { c.stamp("closing"); c.closing.Store(true) }
+
+// release ends the closing state: AcceptStream returns and the swarm reaps the connection.
+func (c *conn) release() { c.stampRelease(); c.Conn.RemoteClose() }
+
+// closingListed: in the closing state and not yet really closed (the swarm cannot have reaped it).
+func (c *conn) closingListed() bool { return c.closing.Load() && !c.Conn.IsClosed() }
+
+func (c *conn) IsClosed() bool { return c.closing.Load() || c.Conn.IsClosed() }
+
+func (c *conn) OpenStream(ctx context.Context) (network.MuxedStream, error) {
+	if c.closing.Load() {
+		return nil, errConnClosing
+	}
+	return c.Conn.OpenStream(ctx)
+}
+
+var errConnClosing = errors.New("c12: transport connection is closed (closing, not reaped yet)")
 
 func (c *conn) As(target any) bool {
 	if p, ok := target.(**conn); ok {
@@ -124,6 +159,13 @@ func (c *conn) describe(t0 time.Time) string {
 	s := fmt.Sprintf("#%d %s/%s %s added=%v", c.seq, c.cls, dir, c.RAddr, c.added.Sub(t0))
 	if ct, ok := c.closedAt(); ok {
 		s += fmt.Sprintf(" closed=%v(%v)", ct.Sub(t0), c.closedBy.Load())
+	}
+	if c.closing.Load() {
+		if ns := c.releasedNS.Load(); ns != 0 {
+			s += fmt.Sprintf(" reaped=%v", time.Unix(0, ns).Sub(t0))
+		} else {
+			s += " not-reaped"
+		}
 	}
 	return s
 }
